@@ -462,14 +462,46 @@ func runC13(r *Run) {
 			}
 			// removal inside a loop over a slice S: pair with handler loop over same S
 			ia := rangeElemSource(key)
+			var S ssa.Value
 			if ia == nil {
-				terminal.Violation(fn, instrPos(dc), "removal in loop", "removal loop is not a range over a collected slice: pairing with events undecided")
-				continue
-			}
-			S := ia.X
-			terminal.Instance(fnName(fn)+"|loopdelete", true, map[string]string{"fn": fnName(fn), "slice": exprDepth(S, 0)})
-			if !fullRangeLoop(lp, S, ia) {
-				terminal.Violation(fn, instrPos(dc), "partial removal loop", "the removal loop does not range over the whole collected slice")
+				// fused form: the entry is removed inside the scan of the table itself, in the very block
+				// that appends its key to the collected slice (deleting the visited entry while ranging is
+				// allowed); the collected slice is then the scan loop's own accumulator
+				if e, isE := key.(*ssa.Extract); isE && e.Index == 1 {
+					if nx, isN := e.Tuple.(*ssa.Next); isN && lp.Body[nx.Block()] {
+						for _, in := range dc.Block().Instrs {
+							ap, isC := in.(*ssa.Call)
+							if !isC || !isBuiltinCall(ap, "append") || len(ap.Call.Args) != 2 {
+								continue
+							}
+							for _, el := range appendedElems(ap) {
+								if el == ssa.Value(e) {
+									// the accumulator: the header phi this append feeds
+									for _, hin := range lp.Header.Instrs {
+										if ph, isP := hin.(*ssa.Phi); isP {
+											for _, pe := range ph.Edges {
+												if pe == ssa.Value(ap) {
+													S = ph
+												}
+											}
+										}
+									}
+								}
+							}
+						}
+					}
+				}
+				if S == nil {
+					terminal.Violation(fn, instrPos(dc), "removal in loop", "removal loop is not a range over a collected slice: pairing with events undecided")
+					continue
+				}
+				terminal.Instance(fnName(fn)+"|loopdelete", true, map[string]string{"fn": fnName(fn), "slice": exprDepth(S, 0), "form": "removed while scanning"})
+			} else {
+				S = ia.X
+				terminal.Instance(fnName(fn)+"|loopdelete", true, map[string]string{"fn": fnName(fn), "slice": exprDepth(S, 0)})
+				if !fullRangeLoop(lp, S, ia) {
+					terminal.Violation(fn, instrPos(dc), "partial removal loop", "the removal loop does not range over the whole collected slice")
+				}
 			}
 			paired := false
 			for _, hc := range hcalls {
